@@ -778,10 +778,10 @@ func c07Instances(add func(*Instance), thorough bool) {
 		}
 	}
 	// every pairing of chunk kinds under one key (full run, run, bitmap chunk against array / run receivers)
-	kinds := []int{1, 220, 224, 100}
+	kinds := []int{21, 220, 224, 100}
 	for _, ka := range kinds {
 		for _, kb := range kinds {
-			if ka == 1 && kb == 1 {
+			if ka == 21 && kb == 21 {
 				continue
 			}
 			for _, op := range []int{2, 6, 1, 5, 4, 8} {
@@ -790,7 +790,7 @@ func c07Instances(add func(*Instance), thorough bool) {
 					if (ka == 100 || kb == 100) && op != 6 && op != 2 {
 						tier = 1
 					}
-					pp := with(win, "ak", 1, "akeys", 4, "acow", 0, "ac0", ka, "bk", 1, "bkeys", 4, "bcow", 0, "bc0", kb, "op", op, "mut", mut, "mk", 1, "pre", 0, "xb", 4150, "xm", 15)
+					pp := with(win, "ak", 1, "akeys", 4, "acow", 0, "ac0", ka, "bk", 1, "bkeys", 4, "bcow", 0, "bc0", kb, "op", op, "mut", mut, "mk", 1, "pre", 0, "xb", 56, "xm", 15)
 					add(&Instance{Func: "VerifC07Op", Tier: tier, Params: pp})
 				}
 			}
